@@ -23,7 +23,7 @@ use serde_json::Value;
 fn n_items(prop: &str, tier: &str) -> usize {
     match prop {
         "C01" | "C04" => lookup::n_items(tier),
-        "C02" | "C03" => sysprops::n_items(prop, tier),
+        "C02" | "C03" | "C05" | "C10" | "C11" => sysprops::n_items(prop, tier),
         _ => 0,
     }
 }
@@ -31,7 +31,7 @@ fn n_items(prop: &str, tier: &str) -> usize {
 fn run_item(prop: &str, tier: &str, idx: usize, only: Option<&Value>) -> sys::MResult<ItemResult> {
     match prop {
         "C01" | "C04" => lookup::run_item(prop, tier, idx, only),
-        "C02" | "C03" => sysprops::run_item(prop, tier, idx, only),
+        "C02" | "C03" | "C05" | "C10" | "C11" => sysprops::run_item(prop, tier, idx, only),
         _ => sys::mach(format!("no engine for {}", prop)),
     }
 }
@@ -39,7 +39,7 @@ fn run_item(prop: &str, tier: &str, idx: usize, only: Option<&Value>) -> sys::MR
 fn report(prop: &str, tier: &str) -> Report {
     match prop {
         "C01" | "C04" => lookup::report(prop, tier),
-        "C02" | "C03" => sysprops::report(prop, tier),
+        "C02" | "C03" | "C05" | "C10" | "C11" => sysprops::report(prop, tier),
         _ => unreachable!(),
     }
 }
